@@ -33,6 +33,8 @@ FORMATS = [("csv", ".csv"), ("parquet", ".parquet"), ("csv", ".tab"), ("parquet"
 SCALES = {"lin": (0.5, -2.25), "big": (1024.0, -4096.0), "small": (1.0 / 1024.0, -1.0 / 512.0)}
 SCALE_NAMES = ["lin", "big", "small"]
 COLUMNS = ["id", "score", "pay", "txt"]
+# the same four columns under names that are not Python identifiers (what mokapot's own result files use)
+STYLED = ["PSM id", "mokapot score", "pay-load", "mokapot q-value"]
 _ID = re.compile(r"^r(\d+)_(\d+)$")
 BASE = None         # scratch directory of this run
 
@@ -55,23 +57,23 @@ def rank_of(x, scale):
     return r
 
 
-def write_inputs(d: Path, inputs, fmt, ext, scale):
+def write_inputs(d: Path, inputs, fmt, ext, scale, names=COLUMNS, tag="in"):
     import pyarrow as pa
     import pyarrow.parquet as pq
     paths = []
     for f, ranks in enumerate(inputs, 1):
-        p = d / ("in%d%s" % (f, ext))
+        p = d / ("%s%d%s" % (tag, f, ext))
         n = len(ranks)
         ids = ["r%d_%d" % (f, i) for i in range(1, n + 1)]
         sc = [score_of(r, scale) for r in ranks]
         pay = [1000 * f + i for i in range(1, n + 1)]
         txt = ["t%d/%d" % (f, i) for i in range(1, n + 1)]
         if fmt == "parquet":
-            pq.write_table(pa.table({"id": ids, "score": pa.array(sc, pa.float64()),
-                                     "pay": pa.array(pay, pa.int64()), "txt": txt}), p)
+            pq.write_table(pa.table({names[0]: ids, names[1]: pa.array(sc, pa.float64()),
+                                     names[2]: pa.array(pay, pa.int64()), names[3]: txt}), p)
         else:
             with open(p, "w") as fh:
-                fh.write("\t".join(COLUMNS) + "\n")
+                fh.write("\t".join(names) + "\n")
                 for k in range(n):
                     fh.write("%s\t%r\t%d\t%s\n" % (ids[k], sc[k], pay[k], txt[k]))
         paths.append(p)
@@ -82,12 +84,14 @@ def _plain(v):
     return v.item() if hasattr(v, "item") else v
 
 
-def project(rows, scale):
+def project(rows, scale, names=COLUMNS):
     """Returned rows (dicts) -> ints / strings / bools.  No property is decided here."""
     out, rk, pay, txt = [], [], [], []
     ok = True
+    back = dict(zip(names, COLUMNS))
     for row in rows:
-        ok = ok and sorted(row.keys()) == sorted(COLUMNS)
+        ok = ok and sorted(str(k) for k in row.keys()) == sorted(names)
+        row = {back.get(k, k): v for k, v in row.items()}
         m = _ID.match(str(row.get("id", "")))
         out.append([int(m.group(1)), int(m.group(2))] if m else [0, 0])
         rk.append(rank_of(row.get("score"), scale))
@@ -109,15 +113,28 @@ def call_real(case):
     inputs, desc, impl, scale = case["inputs"], case["desc"], case["impl"], case["scale"]
     d = Path(tempfile.mkdtemp(prefix="c_", dir=BASE))
     rows, raised = [], ""
+    names = STYLED if case.get("styled") else COLUMNS
+    score_col = names[1]
     try:
-        paths = write_inputs(d, inputs, case["fmt"], case["ext"], scale)
+        paths = write_inputs(d, inputs, case["fmt"], case["ext"], scale, names)
         try:
             if impl == "rowdict":
                 old = U.MERGE_SORT_CHUNK_SIZE
                 U.MERGE_SORT_CHUNK_SIZE = case["rchunk"]      # what MOKAPOT_MERGE_SORT_CHUNK_SIZE configures
                 try:
-                    for row in U.merge_sort(paths, "score"):
+                    hist = case.get("history")
+                    other = None
+                    if hist:
+                        # another merge of the same process: abandoned after two rows before this one starts, or consumed in
+                        # lock step with it (its rows are not judged; merges must not share state)
+                        op = write_inputs(d, [[9, 7, 5, 3, 1], [8, 6, 4, 2], [10, 1]], case["fmt"], case["ext"], scale, names, tag="other")
+                        other = U.merge_sort(op, score_col)
+                        next(other, None)
+                        next(other, None)
+                    for row in U.merge_sort(paths, score_col):
                         rows.append(dict(row))
+                        if hist == "interleaved":
+                            next(other, None)
                 finally:
                     U.MERGE_SORT_CHUNK_SIZE = old
             else:
@@ -125,11 +142,11 @@ def call_real(case):
                 api = case["api"]
                 kw = {} if (desc and case.get("default_desc")) else {"descending": desc}
                 if api == "merge_readers":
-                    for chunk in merge_readers(readers, priority_column="score",
+                    for chunk in merge_readers(readers, priority_column=score_col,
                                                reader_chunk_size=case["rchunk"], **kw):
                         rows.extend(chunk.to_dict(orient="records"))
                 else:
-                    m = MergedTabularDataReader(readers, "score", reader_chunk_size=case["rchunk"], **kw)
+                    m = MergedTabularDataReader(readers, score_col, reader_chunk_size=case["rchunk"], **kw)
                     if api == "read":
                         rows.extend(m.read().to_dict(orient="records"))
                     elif api == "chunked":
@@ -152,7 +169,7 @@ def call_real(case):
             raised = type(e).__name__
     finally:
         shutil.rmtree(d, ignore_errors=True)
-    out, rk, pay, txt, ok = project(rows, scale)
+    out, rk, pay, txt, ok = project(rows, scale, names)
     return {"impl": impl, "desc": bool(desc), "inputs": [list(map(int, s)) for s in inputs],
             "raised": bool(raised), "rtype": raised, "out": out, "rk": rk, "pay": pay, "txt": txt,
             "payload_ok": ok}
@@ -187,7 +204,9 @@ def make_case(idx, impl, desc, inputs, **fixed):
          "api": "merge_sort" if impl == "rowdict" else TABLE_APIS[(idx // 3) % len(TABLE_APIS)],
          "ochunk": 1 + (idx // 5) % (total + 1),
          "scale": SCALE_NAMES[(idx // 7) % 3],
-         "default_desc": bool((idx // 11) % 2)}
+         "default_desc": bool((idx // 11) % 2),
+         "styled": bool((idx // 4) % 3 == 1),
+         "history": [None, None, "abandoned", "interleaved"][(idx // 6) % 4] if impl == "rowdict" else None}
     c.update(fixed)
     return c
 
